@@ -1600,14 +1600,6 @@ func (n *node) spawn(factory gen.ProcessFactory, options gen.ProcessOptionsExtra
 		important:   options.ImportantDelivery,
 	}
 
-	if options.Register != "" {
-		if _, exist := n.names.LoadOrStore(options.Register, p); exist {
-			return p.pid, gen.ErrTaken
-		}
-		p.name = options.Register
-		p.registered.Store(true)
-	}
-
 	// init mailbox
 	if options.MailboxSize > 0 {
 		p.fallback = options.Fallback
@@ -1629,6 +1621,14 @@ func (n *node) spawn(factory gen.ProcessFactory, options gen.ProcessOptionsExtra
 		Creation: n.creation,
 	}
 	p.pid = pid
+
+	if options.Register != "" {
+		if _, exist := n.names.LoadOrStore(options.Register, p); exist {
+			return empty, gen.ErrTaken
+		}
+		p.name = options.Register
+		p.registered.Store(true)
+	}
 
 	for k, v := range options.ParentEnv {
 		p.SetEnv(k, v)
